@@ -82,6 +82,14 @@ SMNear(x, y, keep) ==
   IF x.neg = y.neg THEN Len(MagDiff(x.mag, y.mag)) + keep <= Len(y.mag) \/ x.mag = y.mag
   ELSE Len(x.mag) + keep <= Len(y.mag) /\ Len(y.mag) <= 1
 
+\* x + 1 on magnitudes / sign-magnitude integers
+RECURSIVE IncR(_, _)
+IncR(a, k) == IF k > Len(a) THEN Append(a, 1)
+              ELSE IF a[k] = 0 THEN [a EXCEPT ![k] = 1] ELSE IncR([a EXCEPT ![k] = 0], k + 1)
+MagInc(a) == IncR(a, 1)
+MagDec(a) == Trim(SubR(a, <<1>>, 1, 0))            \* a # <<>>
+SMInc(x) == IF x.neg THEN SM(TRUE, MagDec(x.mag)) ELSE SM(FALSE, MagInc(x.mag))
+
 \* bytes of a byte-aligned slice
 BytesAt(bytes, off, n) ==          \* off, n multiples of 8
   [k \in 1..(n \div 8) |-> IF off \div 8 + k <= Len(bytes) THEN bytes[off \div 8 + k] ELSE 0]
